@@ -129,16 +129,43 @@ class Run(object):
     def exhaustive(self, what):
         self.exhaustive_parts.append(what)
 
+    GUARD_SECONDS = 20       # no single library call of any driver takes more than a fraction of a second on a correct tree
+
     def guard(self, fn, clause, inp):
-        """Run fn(); an exception is a violation of `clause` (exception freedom)."""
+        """Run fn(); an exception is a violation of `clause` (exception freedom), and so is a call that does not return
+        within GUARD_SECONDS (a library call that hangs must end in a VIOLATION with its input, not in a driver timeout)."""
+        import signal
+
+        class _Hang(BaseException):
+            pass
+
+        def on_alarm(signum, frame):
+            raise _Hang()
+        use_alarm = hasattr(signal, "setitimer") and signal.getsignal(signal.SIGALRM) in (signal.SIG_DFL, None, signal.SIG_IGN)
+        old = None
+        if use_alarm:
+            old = signal.signal(signal.SIGALRM, on_alarm)
+            signal.setitimer(signal.ITIMER_REAL, self.GUARD_SECONDS)
         try:
             return True, fn()
+        except _Hang:
+            self.violation(clause, inp, "did not return within %d s" % self.GUARD_SECONDS)
+            self.hangs = getattr(self, "hangs", 0) + 1
+            if self.hangs >= 2:
+                # every further hang would cost GUARD_SECONDS: stop exploring, report what was found
+                self.note("exploration stopped after %d calls that did not return" % self.hangs)
+                raise StopExploring()
+            return False, None
         except RecursionError as e:
             self.violation(clause, inp, "RecursionError", known=None)
             return False, None
         except Exception as e:  # noqa
             self.violation(clause, inp, "%s: %s" % (type(e).__name__, str(e)[:200]))
             return False, None
+        finally:
+            if use_alarm:
+                signal.setitimer(signal.ITIMER_REAL, 0)
+                signal.signal(signal.SIGALRM, old if old is not None else signal.SIG_DFL)
 
     def finish(self):
         out = {
@@ -161,6 +188,10 @@ class Run(object):
         sys.stdout.flush()
 
 
+class StopExploring(BaseException):
+    """raised by Run.guard to end a driver run early (after repeated hangs); the results so far are reported"""
+
+
 def main(prop, scope, body, replay_fn=None):
     """Entry point helper: body(run) explores; replay_fn(run, input) re-evaluates one case."""
     run = Run(prop, scope)
@@ -173,6 +204,8 @@ def main(prop, scope, body, replay_fn=None):
                 replay_fn(run, inp)
         else:
             body(run)
+    except StopExploring:
+        pass
     except Exception:  # a crash of the driver is a checker fault, not a violation
         sys.stdout.write("T2CRASH " + json.dumps({"property": prop, "trace": traceback.format_exc()[-2000:]}) + "\n")
         sys.exit(3)
